@@ -229,7 +229,7 @@ class Multisphere(ScatteringTheory):
         fields = mieangfuncs.tmatrix_fields(positions, amn, lmax, 0,
                                             illum_polarization.values[:2],
                                             self.compute_escat_radial)
-        if np.isnan(fields[0][0]):
+        if np.isnan(fields).any():
             raise MultisphereFailure()
 
         return fields
